@@ -58,7 +58,7 @@ pvars == <<lsn, att, natt, ep, synSeen, accd, flow, drops, premOk, idle, ok>>
 NoAtt == [st |-> "none", port |-> 0, sawUp |-> FALSE, sawDown |-> FALSE, full |-> FALSE]
 NoEp  == [h |-> "none", wr |-> <<>>, rd |-> <<>>, eof |-> FALSE, wfin |-> "open"]
 OkAll == [caps |-> TRUE, mss |-> TRUE, wnd |-> TRUE, udp |-> TRUE, accept |-> TRUE,
-          conn |-> TRUE, abort |-> TRUE, prog |-> TRUE, cpend |-> TRUE, tab |-> TRUE]
+          conn |-> TRUE, abort |-> TRUE, prog |-> TRUE, cpend |-> TRUE, offer |-> TRUE, tab |-> TRUE]
 
 PInit ==
     /\ lsn = [st |-> "none", port |-> 0]
@@ -311,6 +311,12 @@ P_Egress(pk, wlen, maxage, obs) ==
              !.wnd = @ /\ \A i \in 1..Len(pk) : EmitOkWnd(pk[i]),
              \* C13: no connect is still pending once everything has run out
              !.cpend = @ /\ (idle2 >= R => \A c \in Ports : att[c].st # "pending"),
+             \* C13: "accept hands out each established connection exactly once": once everything
+             \* has settled (premise), every connect that returned Ok while the listener stayed up
+             \* and that accept has not returned yet is waiting in the accept queue
+             !.offer = @ /\ ((idle2 >= R /\ premOk' /\ lsn.st = "up") =>
+                                Cardinality({c \in Ports : att[c].st = "ok" /\ ~att[c].sawDown
+                                                            /\ ~InSeq(att[c].port, accd)}) <= obs.lq),
              !.tab = @ /\ ((idle2 >= R /\ premOk') => TablesIn(obs))]
     /\ UNCHANGED <<lsn, att, natt, ep, accd, flow, drops>>
 
@@ -377,9 +383,10 @@ Reclaimed   == ok.tab
 \* C13: "a connect ends in exactly one of Ok / Refused / TimedOut": none is still
 \* pending once every retransmit budget has run out
 ConnectCompletes == ok.cpend
+AcceptOffered    == ok.offer
 
 C06Safety == PrefixInv /\ EofOnlyAtEnd
 C06Inv == PrefixInv /\ EofOnlyAtEnd /\ NoSpuriousAbort /\ BoundedProgress
 C16Inv == CapsOk /\ MssOk /\ WindowOk /\ UdpOk
-C13Inv == AcceptOnce /\ ConnectRule /\ Reclaimed /\ ConnectCompletes
+C13Inv == AcceptOnce /\ ConnectRule /\ Reclaimed /\ ConnectCompletes /\ AcceptOffered
 =============================================================================
